@@ -106,6 +106,25 @@ type ctl struct {
 	writeFaults map[int]bool
 	nReads      int
 	nWrites     int
+	inflight    int // forwarded channel lookups that have not returned yet
+}
+
+// settled waits until no forwarded lookup is in flight any more; false = one is still blocked after the grace period
+// (the memoizer has returned without draining it).
+func (c *ctl) settled(grace time.Duration) bool {
+	deadline := time.Now().Add(grace)
+	for {
+		c.mu.Lock()
+		n := c.inflight
+		c.mu.Unlock()
+		if n == 0 {
+			return true
+		}
+		if time.Now().After(deadline) {
+			return false
+		}
+		time.Sleep(200 * time.Microsecond)
+	}
 }
 
 func newCtl(gating bool, nthreads int) *ctl {
@@ -220,8 +239,14 @@ func gread[T any](g *gGraph, ctx context.Context, q QDesc, out chan<- T, call fu
 	g.c.mu.Lock()
 	n := g.c.nReads
 	g.c.nReads++
+	g.c.inflight++
 	after, faulty := g.c.readFaults[n]
 	g.c.mu.Unlock()
+	defer func() {
+		g.c.mu.Lock()
+		g.c.inflight--
+		g.c.mu.Unlock()
+	}()
 	c := make(chan T)
 	var ierr error
 	done := make(chan struct{})
